@@ -31,6 +31,13 @@ func ParseProgram(p *ParserZH) *syntax.Program {
 				stmt := ParseImportStmt(p)
 				p.setStmtCurrentLine(stmt, tk)
 				program.ImportBlock = append(program.ImportBlock, stmt)
+				// ‹导入语句› [‹间隔符› ‹导入语句›]*: a ； after an import statement separates it
+				// from the next one (it used to end the import section)
+				for {
+					if match, _ := p.tryConsume(TypeStmtSep); !match {
+						break
+					}
+				}
 			} else {
 				hState = stateExecBlock
 			}
